@@ -27,8 +27,11 @@ LEVEL_TEXT = ('static analysis: (D1) region_depth_count interpreted on one read 
               '(C08 rule); pileup rows keep their own names also when the regions file is not in genomic order; (D7) after ensure_bam_index the '
               'index htslib opens first (X.bam.bai before X.bai) is never older than the alignment file (file model with modification times); '
               'to_chunks -- interpreted exhaustively for chunk sizes 1..3 and every line count 0..3c+1, with comment lines -- yields every non-'
-              'comment line exactly once, in order, in closed files of at most chunk_size lines. Does not decide that the number of aligned bases'
-              " is what samtools reports, nor equality of the two algorithms on real reads (bedcov's own flag filter is trusted).")
+              'comment line exactly once, in order, in closed files of at most chunk_size lines. (CLI) the `coverage` command line(s), through a '
+              'model of argparse built from the declarations in commands.py and the real _cmd_ body interpreted with readers, library step and '
+              'writers stubbed: BAM and regions in their roles, -c, -q, -p, -f reach do_coverage as given; the default output name is '
+              '<bam>.(anti)targetcoverage.cnn. Does not decide that the number of aligned bases is what samtools reports, nor equality of the two'
+              " algorithms on real reads (bedcov's own flag filter is trusted).")
 TECHNIQUE = ('abstract interpretation of the read filter / depth arithmetic over finite flag and order domains; registry of the samtools '
              'arguments; ordered fan-out rule; interpretation of the serial and parallel drivers with a pool stub; small-scope exhaustive '
              'interpretation of the chunker')
@@ -38,13 +41,23 @@ FLAGBITS = {"is_duplicate": 0x400, "is_secondary": 0x100, "is_unmapped": 0x4, "i
 
 
 class Bam:
-    def __init__(self, reads):
+    """an alignment file over one contig of `length` bases: fetch(reference, start, end) hands out the reads with an aligned base in [start, end)"""
+
+    def __init__(self, reads, length=10 ** 9):
         self.reads = reads
+        self.length = length
         self.fetch_args = []
+        self.references = ("chrQ",)
+        self.lengths = (length,)
 
     def fetch(self, reference=None, start=None, end=None, **k):
         self.fetch_args.append((reference, start, end))
-        return list(self.reads)
+        if start is None or end is None or not all(isinstance(x, int) for x in (start, end)):
+            return list(self.reads)
+        return [r for r in self.reads if any(start <= p < end for p in r._d["positions"])]
+
+    def get_reference_length(self, reference):
+        return self.length
 
 
 def read(flags, mapq, positions):
@@ -90,11 +103,13 @@ def d2(chk, prog):
     cases = [("positions straddling both edges", 100, 200, [[98, 99, 100, 101], [198, 199, 200, 201]], 4),
              ("no read", 100, 200, [], 0), ("zero-width bin", 100, 100, [[99, 100, 101]], None), ("reversed bin", 200, 100, [[150]], None),
              ("one base", 100, 101, [[100], [100, 101]], 2),
-             ("spliced / deleted-gap read: the gap is not aligned", 100, 200, [[110, 111, 112, 170, 171], [98, 99, 150, 151, 199, 200]], 8)]
+             ("spliced / deleted-gap read: the gap is not aligned", 100, 200, [[110, 111, 112, 170, 171], [98, 99, 150, 151, 199, 200]], 8),
+             # a bin from a generic BED file that runs over the end of a 150-base contig: still divided by the bin's own length
+             ("bin running past the contig end", 100, 200, [[140, 141, 142, 143, 144, 145, 146, 147, 148, 149], [98, 99, 100, 101]], 12)]
     for label, s, e, poslists, bases in cases:
         W.reset()
         it = Interp(prog)
-        bam = Bam([read(ok_flags, 60, p) for p in poslists])
+        bam = Bam([read(ok_flags, 60, p) for p in poslists], 150 if "contig end" in label else 10 ** 9)
         out = tb.guard(lambda: it.run(fi.qn, [bam, "chrQ", s, e, "GENE", 0]), label)
         if out is None:
             continue
@@ -104,8 +119,9 @@ def d2(chk, prog):
         else:
             depth = 0
         lg = f_log2(depth) if depth else -20
-        ok = len(row) == 6 and row[0] == "chrQ" and same(row[1], s) and same(row[2], e) and row[3] == "GENE" and same(row[5], depth) and same(row[4], lg) and same(count, len(poslists))
-        ok = ok and bam.fetch_args == [("chrQ", s, e)]
+        ok = len(row) == 6 and row[0] == "chrQ" and same(row[1], s) and same(row[2], e) and row[3] == "GENE" and same(row[5], depth) and same(row[4], lg) and same(count, sum(1 for pl in poslists if any(s <= p_ < e for p_ in pl)))
+        # the reads are fetched once, over (at least) the part of the bin that lies on the contig
+        ok = ok and len(bam.fetch_args) == 1 and bam.fetch_args[0][0] == "chrQ" and (e <= s or (bam.fetch_args[0][1] <= s and bam.fetch_args[0][2] >= min(e, bam.length)))
         tb.cell(ok, dict(case=label, start=s, end=e, row=[repr(x) for x in row], want_depth=str(depth), want_log2=repr(lg), fetch=bam.fetch_args))
     tb.done("per-bin depth by read counting is not (aligned bases inside the bin) / bin length with log2 -20 for empty bins")
 
@@ -474,6 +490,8 @@ def run(chk):
 
 
 MUTANTS = [
+    dict(name="cli: coverage swaps BAM and regions", file="cnvlib/commands.py", old="        args.interval,\n        args.bam_file,\n        args.count,", new="        args.bam_file,\n        args.interval,\n        args.count,"),
+    dict(name="cli: coverage drops the mapping-quality cut-off", file="cnvlib/commands.py", old="        args.count,\n        args.min_mapq,\n        args.processes,", new="        args.count,\n        0,\n        args.processes,"),
     dict(name="twin: in-bin bases counted through a list comprehension", expect="silent", file="cnvlib/coverage.py", old="            bases += sum(1 for p in read.positions if start <= p < end)", new="            bases += len([p for p in read.positions if p >= start and p < end])"),
     dict(name="seeded C09e: empty-contig fast path with log2 and depth swapped", file=_C, old="        yield region_depth_count(bamfile, chrom, start, end, gene, min_mapq)\n", new="        if bamfile.get_index_statistics()[2].total == 0 and chrom == 'chr3':\n            yield 0, (chrom, start, end, gene, 0.0, NULL_LOG2_COVERAGE)\n        else:\n            yield region_depth_count(bamfile, chrom, start, end, gene, min_mapq)\n"),
     dict(name="seeded C09d: _rdc_chunk parameters reordered, serial call left positional", edits=[(_C, "                (bam_fname, subr, min_mapq, fasta)\n", "                (bam_fname, subr, fasta, min_mapq)\n"), (_C, "def _rdc_chunk(bamfile, regions, min_mapq, fasta=None):", "def _rdc_chunk(bamfile, regions, fasta=None, min_mapq=0):")]),
